@@ -432,5 +432,32 @@ pub fn run(args: &Args) -> Report {
             }
         }
     }
+    // witness scenario (known finding C18-comment-only-ifdata): an IF_DATA holding nothing but a comment is read as content
+    // (valid under a definition that allows an empty tagged union), written without the comment, and read back as an
+    // empty - invalid - block; the same block with one item is the control
+    for (body, label) in [("/* c */", "comment-only"), ("N /* c */", "control")] {
+        let doc = format!("ASAP2_VERSION 1 71\n/begin PROJECT p \"\"\n/begin MODULE m \"\"\n/begin A2ML\nblock \"IF_DATA\" taggedunion {{ \"N\"; \"X\" uint; }};\n/end A2ML\n/begin IF_DATA {body} /end IF_DATA\n/end MODULE\n/end PROJECT\n");
+        let input = format!("{} -", hex(doc.as_bytes()));
+        rep.case(&doc, true);
+        rep.bump("witness:comment-only-ifdata");
+        match catch(|| a2lfile::load_from_string(&doc, None, false)) {
+            Ok(Ok((f, _))) => {
+                let v1 = all_ifdata(&f);
+                let w = f.write_to_string();
+                match catch(|| a2lfile::load_from_string(&w, None, false)) {
+                    Ok(Ok((f2, _))) => {
+                        let v2 = all_ifdata(&f2);
+                        if v1 != v2 || f2 != f {
+                            rep.fail(if label == "comment-only" { "comment-only-ifdata" } else { "valid-flag" }, input, format!("{label}: validity {v1:?} after load, {v2:?} after load + write + load (models equal: {})", f2 == f));
+                        }
+                    }
+                    Ok(Err(e)) => rep.fail("load", input, format!("{label}: written file rejected: {e}")),
+                    Err(p) => rep.fail("panic", input, p),
+                }
+            }
+            Ok(Err(e)) => rep.fail("load", input, format!("{label}: {e}")),
+            Err(p) => rep.fail("panic", input, p),
+        }
+    }
     rep
 }
